@@ -6,10 +6,12 @@ import (
 	"context"
 
 	corev1 "k8s.io/api/core/v1"
+	"k8s.io/apimachinery/pkg/runtime"
 	"k8s.io/client-go/tools/record"
 	"sigs.k8s.io/controller-runtime/pkg/client"
 
 	networkv1beta1 "github.com/AliyunContainerService/terway/pkg/apis/network.alibabacloud.com/v1beta1"
+	"github.com/AliyunContainerService/terway/pkg/controller/status"
 )
 
 // VerifNodeAdvertise runs the two functions that publish node capacity (annotations, extended
@@ -20,4 +22,10 @@ func VerifNodeAdvertise(ctx context.Context, c client.Client, rec record.EventRe
 		return err
 	}
 	return r.patchNodeRes(ctx, k8sNode, node)
+}
+
+// VerifNewReconcileNode builds the node reconciler over an injected client (no cloud client: the
+// harness installs its own limit provider).
+func VerifNewReconcileNode(c client.Client, scheme *runtime.Scheme, rec record.EventRecorder) *ReconcileNode {
+	return &ReconcileNode{client: c, scheme: scheme, record: rec, nodeStatusCache: status.NewCache[status.NodeStatus]()}
 }
